@@ -239,7 +239,7 @@ def instances(tier):
     quick = tier == 'quick'
     surfs = [((1, 2), ((), ())), ((2, 1), ((), ())), ((2, 2), ((), (1,))), ((1, 1), ((1,), (1, 1)))]      # 2x3, 3x2, 3x4, 3x4
     if not quick:
-        surfs += [((2, 2), ((1,), ())), ((1, 2), ((), (1, 1)))]
+        surfs += [((2, 2), ((1,), ())), ((1, 2), ((), (1, 1))), ((3, 1), ((1,), (1, 1, 1))), ((2, 3), ((1, 1, 1), ()))]
     for degs, ms in surfs:
         for rational in (False, True):
             sp = spec('surface', degs, ms, rational=rational)
@@ -253,7 +253,7 @@ def instances(tier):
         out.append(inst('flips %dx%d' % (su, sv), h_flips, su=su, sv=sv))
     vols = [((1, 2, 1), ((), (), (1, 1))), ((2, 1, 1), ((), (), ()))]      # 2x3x4, 3x2x2
     if not quick:
-        vols += [((1, 1, 2), ((), (1, 1), ())), ((1, 2, 2), ((1, 1), (), ()))]
+        vols += [((1, 1, 2), ((), (1, 1), ())), ((1, 2, 2), ((1, 1), (), ())), ((2, 1, 3), ((), (1,), (1,))), ((1, 1, 1), ((1, 1, 1), (1,), ()))]
     for degs, ms in vols:
         for rational in (False, True):
             sp = spec('volume', degs, ms, rational=rational)
